@@ -51,6 +51,37 @@ def const_int(body, op, depth=0):
     return None
 
 
+def flag_flows(facts, body, op, depth=0):
+    """(function that supplies the value, folded constant or None) for a flags operand that may be a constant here, or a
+    parameter / capture filled by the callers (a private `flock(file, op)` helper shared by lock and unlock)"""
+    v = const_int(body, op)
+    if v is not None:
+        return [(body.id.split("::{closure")[0], v)]
+    out = []
+    if depth > 3:
+        return [(body.id.split("::{closure")[0], None)]
+    rs = [r for r in trace(body, op) if r.kind != "via"]
+    for r in rs:
+        if r.kind == "upvar" and body.parent in facts.bodies and r.what != "<env>":
+            par = facts.bodies[body.parent]
+            for b in range(par.n):
+                for st in par.stmts(b):
+                    if st["k"] == "assign" and st["rv"]["k"] == "agg" and st["rv"].get("ak") == "closure" and st["rv"].get("name") == body.id and r.what in st["rv"].get("fields", []):
+                        out += flag_flows(facts, par, st["rv"]["ops"][st["rv"]["fields"].index(r.what)], depth + 1)
+        elif r.kind == "param" and body.kind != "Closure":
+            callers = [c for c in facts.callers().get(body.id, []) if c[2] == "call"]
+            for (cid, cb, _k) in callers:
+                cbody = facts.bodies[cid]
+                t = cbody.term(cb)
+                if r.what - 1 < len(t["args"]):
+                    out += flag_flows(facts, cbody, t["args"][r.what - 1], depth + 1)
+            if not callers:
+                out.append((body.id, None))
+        else:
+            out.append((body.id.split("::{closure")[0], None))
+    return out
+
+
 def touching_sites(ctx_events, body, facts=None):
     """(bb, what, site) of calls in `body` that touch database files"""
     out = []
@@ -240,22 +271,35 @@ def run(facts, rep, events, model):
             continue
         for b, t in body.calls():
             if (t.get("callee") or "").endswith("::flock") and "libc" in t.get("callee"):
-                flag = const_int(body, t["args"][1])
-                flock_calls.append((body.id, flag, t.get("ln")))
-    rep.floor("libc::flock call sites", len(flock_calls), 2)
-    for (fn, flag, ln) in flock_calls:
+                for (owner, flag) in flag_flows(facts, body, t["args"][1]):
+                    flock_calls.append((owner, flag, t.get("ln")))
+    rep.floor("libc::flock flag flows", len(flock_calls), 2)
+    seen_lock = seen_unlock = False
+    for (fn, flag, ln) in sorted(set(flock_calls), key=repr):
         n += 1
         root = fn.split("::{closure")[0]
         if root == TRY_LOCK:
+            seen_lock = True
             rep.check(flag == "6", "D2", "sys::unix::try_lock_exclusive", "flags=LOCK_EX|LOCK_NB", "try_lock_exclusive calls flock with flags %s instead of LOCK_EX|LOCK_NB (6): a blocking or shared lock does not refuse a second opener" % flag, site=ln, detail="libc::flock(fd, 6)")
         elif root == UNLOCK:
+            seen_unlock = True
             rep.check(flag == "8", "D4", "sys::unix::unlock", "flags=LOCK_UN", "unlock calls flock with flags %s instead of LOCK_UN (8)" % flag, site=ln, detail="libc::flock(fd, 8)")
         else:
-            rep.violation("D2", fn.split("::", 1)[1], "flock-elsewhere", "libc::flock is called at %s outside try_lock_exclusive/unlock" % ln, site=ln)
+            rep.violation("D2", fn.split("::", 1)[1], "flock-elsewhere", "libc::flock is reached at %s with flags supplied by %s, which is neither try_lock_exclusive nor unlock" % (ln, fn), site=ln)
+    n += 1
+    rep.check(seen_lock and seen_unlock, "D2", "sys::unix", "lock-and-unlock-flows", "libc::flock is no longer reached from both try_lock_exclusive and unlock", detail="flows from try_lock_exclusive and from unlock")
     # try_lock_exclusive propagates the error of flock (cvt_r) : its result derives from cvt_r's
     tle = facts.body(TRY_LOCK)
     n += 1
-    ok = any(r.kind == "call" and r.what.endswith("cvt_r") for r in trace(tle, {"l": 0}, extra_transparent=("core::result::Result::map",)))
+    def returns_cvt_r(b_, depth=0):
+        for r in trace(b_, {"l": 0}, extra_transparent=("core::result::Result::map",)):
+            if r.kind == "call" and str(r.what).endswith("cvt_r"):
+                return True
+            if r.kind == "call" and depth < 3 and str(r.what) in facts.bodies and facts.bodies[str(r.what)].crate == "nomt" and returns_cvt_r(facts.bodies[str(r.what)], depth + 1):
+                return True
+        return False
+
+    ok = returns_cvt_r(tle)
     rep.check(ok, "D2", "sys::unix::try_lock_exclusive", "propagates-errno", "try_lock_exclusive no longer returns the outcome of the flock call", site=tle.span, detail="cvt_r(|| flock(..)).map(drop)")
     # ---- D4 ---------------------------------------------------------------------------------
     callers = {c[0] for c in facts.callers().get(UNLOCK, [])}
